@@ -178,7 +178,11 @@ def check_special_receivers(rep, spec):
     special = [cartesian.Copy(2), cartesian.Copy(3), cartesian.Swap(2, 1), cartesian.Discard(2),
                cartesian.Copy(2) >> add @ add, qc.IQPansatz(3, [[0.1, 0.2]]), qc.IQPansatz(2, [[0.3], [0.4]]),
                rigid.Diagram.cups(rigid.Ty('a', 'b'), rigid.Ty('a', 'b').r), gates.Ket(0, 1) >> gates.CX >> gates.H @ gates.X]
-    for d in layered + special:
+    # receivers obtained by slicing and by dagger (their lists of boxes are built differently from those of >> and @)
+    base = f @ s_ >> g @ monoidal.Id(y) >> monoidal.Id(x) @ e_ >> f
+    wide = f @ f @ monoidal.Box('k', y, y)
+    derived = [wide[::-1], wide[:2], wide[1:], (wide >> wide[::-1])[1:5], base[::-1], base[1:3], base[::-1][1:], wide[2:0:-1]]
+    for d in layered + special + derived:
         n = len(d)
         for i in range(-1, n + 1):
             for j in range(-1, n + 1):
